@@ -1612,8 +1612,14 @@ impl StorageEngine {
                             result.truncate(n);
                             result
                         } else {
-                            let n = (-count) as usize;
-                            let mut result = Vec::with_capacity(n);
+                            // count comes from the client: like Redis, refuse counts below
+                            // -LONG_MAX/2, and do not size the reservation by an unchecked number
+                            if count < -(i64::MAX / 2) {
+                                return Err(FerrousError::Command(CommandError::Generic(
+                                    "value is out of range".to_string())));
+                            }
+                            let n = count.unsigned_abs() as usize;
+                            let mut result = Vec::with_capacity(std::cmp::min(n, members.len()));
                             for _ in 0..n {
                                 if let Some(member) = members.choose(&mut rng) {
                                     result.push(member.clone());
